@@ -408,6 +408,15 @@ def main(tier):
         raise common.Inconclusive('quadrature error estimate too large at %d of %d energies' % (n_inc, len(E)))
     if st['compared'].get('DCS_KN:differs-from-compton-ratio-form', 0) < 1000 or not usable2.any():
         raise common.Inconclusive('too few successful evaluations to compare')
+    # ---- the closed forms are functions of their arguments alone: same values in any call order and without an error slot ------
+    sub = slice(None, None, 3 if quick else 1)
+    Es = np.concatenate([E[sub], [0.0, -0.0, -1.0, -511.0]])
+    ths = np.concatenate([th[::6 if quick else 2], [-0.5, 7.0]])
+    phs = ph[::4]
+    E2, T2 = [x.ravel() for x in np.meshgrid(Es, ths, indexing='ij')]
+    E3, T3, P3 = [x.ravel() for x in np.meshgrid(Es[::3], ths[::3], phs, indexing='ij')]
+    calls += execlib.independence(ck, 'c12', 'shipped', [('CS_KN', Es), ('DCS_Thoms', ths), ('DCS_KN', E2, T2), ('ComptonEnergy', E2, T2), ('MomentTransf', E2, T2),
+                                                           ('DCSP_Thoms', T3, P3), ('DCSP_KN', E3, T3, P3)])
     cov = dict(evaluations=int(calls), distinct_nontrivial=len(st['cells']),
                rule='distinct = (function:relation, energy decade) pairs with at least one decided comparison; energies %d log-spaced over 1e-6..1e6 keV '
                     '+ seeded log-uniform, theta %d points on [0, pi] incl. 0, pi/2, pi and their images under theta -> -theta, theta +/- 2pi, theta + 4pi; '
